@@ -8,8 +8,80 @@ LEVEL = 'proof'
 EXPLANATION = 'obligations: translation of the anchored functions + theorems listed in coverage.theorems; the remaining clauses are validated by the oracle sweep only'
 
 
+DWB_V = r"""
+From Coq Require Import ZArith List Bool String.
+Require Import DV.Base.Prelude DV.Base.F64 DV.Spec.Schema DV.Lib.Corr.
+From G Require Import Gen_util Gen_solver.
+Import ListNotations.
+Open Scope Z_scope.
+Definition dwb_case (d xopt sl su : list F) (xbdi : list Z) : Z := hashZ (fl_vec (@py_tr_d_within_bounds ArithF64 d xopt sl su xbdi)).
+"""
+
+
+def dwb_task(args):
+    """calls of trust_region.d_within_bounds made by trsbox on the oracle's own cases: arguments and the returned step"""
+    seed, count = args
+    import numpy as np
+    import dfols.trust_region as tr
+    from ..oracles import C12 as O
+    from .. import modelio as IO
+    rng = np.random.default_rng(seed)
+    out = []
+    orig = tr.d_within_bounds
+
+    def dwb(d, xopt, sl, su, xbdi):
+        r = orig(d, xopt, sl, su, xbdi)
+        if len(out) < 120:
+            out.append((np.array(d, dtype=float).copy(), np.array(xopt, dtype=float).copy(), np.array(sl, dtype=float).copy(), np.array(su, dtype=float).copy(),
+                        [int(v) for v in xbdi], IO.hashZ(IO.fl_vec(r))))
+        return r
+    tr.d_within_bounds = dwb
+    try:
+        for _ in range(count):
+            cs = O.gen_case(rng)
+            with np.errstate(all='ignore'):
+                try:
+                    tr.trsbox(cs['xopt'].copy(), cs['g'].copy(), cs['H'].copy(), cs['sl'].copy(), cs['su'].copy(), cs['delta'], use_fortran=False)
+                except Exception:
+                    pass
+    finally:
+        tr.d_within_bounds = orig
+    return out
+
+
+def correspondence(ctx):
+    from .. import modelio as IO
+    res = C.parallel(dwb_task, [(ctx.seed * 61 + i + 13, ctx.scale(100, 1200)) for i in range(16)], timeout_each=600)
+    cases = []
+    for t, st, r in res:
+        if st != 'ok':
+            ctx.oblige('correspondence:d_within_bounds', False, 'implementation side failed: %s %s' % (st, r))
+            return
+        cases += r
+    cases = cases[:ctx.scale(1500, 15000)]
+    body = DWB_V + 'Definition exp_ : list Z := [' + '; '.join(C.zlit(c[5]) for c in cases) + '].\n'
+    body += 'Definition got_ : list Z := [' + ';\n'.join('dwb_case %s %s %s %s %s' % (IO.vlit(c[0]), IO.vlit(c[1]), IO.vlit(c[2]), IO.vlit(c[3]), IO.zvlit(c[4])) for c in cases) + '].\n'
+    body += 'Eval vm_compute in map (fun p => if Z.eqb (fst p) (snd p) then 1 else 0) (combine got_ exp_).\n'
+    ok, out = C.coq_eval(ctx, 'cases_dwb', body, '')
+    if not ok:
+        ctx.oblige('correspondence:d_within_bounds', False, C.first_error(out))
+        return
+    ls = C.parse_eval_lists(out)
+    flags = ls[0] if ls else []
+    bad = [i for i, f in enumerate(flags) if f != 1]
+    ctx.cov['d_within_bounds_calls_compared'] = len(flags)
+    ctx.cov['d_within_bounds_calls_with_active_bounds'] = sum(1 for c in cases if any(v != 0 for v in c[4]))
+    if len(flags) != len(cases) or not cases:
+        ctx.oblige('correspondence:d_within_bounds', False, 'evaluated %d of %d recorded calls' % (len(flags), len(cases)))
+    elif bad:
+        c = cases[bad[0]]
+        ctx.oblige('correspondence:d_within_bounds[%d]' % bad[0], False, 'regenerated d_within_bounds and the implementation differ on %d of %d calls, first: d=%s xbdi=%s' % (len(bad), len(cases), c[0].tolist(), c[4]))
+    else:
+        ctx.oblige('correspondence:d_within_bounds(%d calls made by trsbox, returned step bit-exact on binary64)' % len(cases), True)
+
+
 def run(ctx):
-    return G.run(ctx, 'C12', LEVEL, GEN, PERRUN, TRUSTED, explanation=EXPLANATION)
+    return G.run(ctx, 'C12', LEVEL, GEN, PERRUN, TRUSTED, explanation=EXPLANATION, correspondence=correspondence, corr_needs=[])
 
 
 def replay(payload):
